@@ -78,14 +78,98 @@ fn real_call(op: &'static str, fd: c_int) -> (ssize_t, c_int, u64, c_int, c_int)
     (r, e, el, fb, fa)
 }
 
+/// Hooked connect: whatever the outcome, the descriptor's blocking mode must be what the caller set.
+fn connect_case(case: u64, out: &Out) {
+    let coroutine = (case / 12) % 2 == 1;
+    let caller_nonblocking = (case / 24) % 2 == 1;
+    let target = (case / 48) % 3; // 0 listening unix socket (connects at once), 1 nobody listens, 2 UDP (connects at once)
+    out.begin(case, jobj! {"op" => "connect", "context" => if coroutine {"coroutine (task)"} else {"plain thread"}, "caller_set_O_NONBLOCK" => caller_nonblocking,
+        "target" => ["listening unix stream socket", "unix path nobody listens on", "UDP peer"][target as usize]});
+    let path = format!("/tmp/verif-c18c-{}-{}.sock\0", std::process::id(), case);
+    let (fd, listener, addr, alen): (c_int, c_int, Vec<u8>, socklen_t) = unsafe {
+        if target == 2 {
+            let peer = libc::socket(libc::AF_INET, libc::SOCK_DGRAM, 0);
+            let mut a: libc::sockaddr_in = std::mem::zeroed();
+            a.sin_family = libc::AF_INET as libc::sa_family_t;
+            a.sin_addr.s_addr = u32::from_ne_bytes([127, 0, 0, 1]);
+            a.sin_port = 0;
+            assert_eq!(0, libc::bind(peer, std::ptr::from_ref(&a).cast(), size_of::<libc::sockaddr_in>() as socklen_t));
+            let mut l = size_of::<libc::sockaddr_in>() as socklen_t;
+            libc::getsockname(peer, std::ptr::from_mut(&mut a).cast(), &raw mut l);
+            let bytes = std::slice::from_raw_parts(std::ptr::from_ref(&a).cast::<u8>(), size_of::<libc::sockaddr_in>()).to_vec();
+            (libc::socket(libc::AF_INET, libc::SOCK_DGRAM, 0), peer, bytes, size_of::<libc::sockaddr_in>() as socklen_t)
+        } else {
+            let mut a: libc::sockaddr_un = std::mem::zeroed();
+            a.sun_family = libc::AF_UNIX as libc::sa_family_t;
+            for (i, ch) in path.bytes().enumerate() {
+                a.sun_path[i] = ch as libc::c_char;
+            }
+            let _ = libc::unlink(path.as_ptr().cast());
+            let l = if target == 0 {
+                let l = libc::socket(libc::AF_UNIX, libc::SOCK_STREAM, 0);
+                assert_eq!(0, libc::bind(l, std::ptr::from_ref(&a).cast(), size_of::<libc::sockaddr_un>() as socklen_t));
+                assert_eq!(0, libc::listen(l, 8));
+                l
+            } else {
+                -1
+            };
+            let bytes = std::slice::from_raw_parts(std::ptr::from_ref(&a).cast::<u8>(), size_of::<libc::sockaddr_un>()).to_vec();
+            (libc::socket(libc::AF_UNIX, libc::SOCK_STREAM, 0), l, bytes, size_of::<libc::sockaddr_un>() as socklen_t)
+        }
+    };
+    if caller_nonblocking {
+        set_nonblock(fd);
+    }
+    let res = in_ctx(coroutine, Duration::from_secs(15), move || {
+        let fb = unsafe { libc::fcntl(fd, libc::F_GETFL) };
+        set_errno(0);
+        let r = oc::connect(None, fd, addr.as_ptr().cast(), alen);
+        let e = errno();
+        let fa = unsafe { libc::fcntl(fd, libc::F_GETFL) };
+        (r, e, fb, fa)
+    });
+    let fp = format!("connect|{coroutine}|{caller_nonblocking}|{target}");
+    match res {
+        None => {
+            out.end(case, Verdict::Violated, "C18/connect/call-never-returned", true, &fp, J::Null, "no result within 15 s");
+            std::process::exit(3);
+        }
+        Some((r, e, fb, fa)) => {
+            let obs = jobj! {"returned" => r, "errno" => e, "flags_before" => fb, "flags_after" => fa};
+            let ok_ret = match target {
+                1 => r == -1,
+                _ => r == 0 || (caller_nonblocking && r == -1 && (e == libc::EINPROGRESS || e == libc::EAGAIN)),
+            };
+            if fb != fa {
+                out.end(case, Verdict::Violated, "C18/connect/blocking-mode-not-restored", true, &fp, obs, &format!("F_GETFL before {fb:#x} after {fa:#x} (returned {r}, errno {e})"));
+            } else if !ok_ret {
+                out.end(case, Verdict::Violated, "C18/connect/unexpected-result", true, &fp, obs, &format!("returned {r} errno {e}"));
+            } else {
+                out.end(case, Verdict::Held, "", true, &fp, obs, "");
+            }
+        }
+    }
+    let _ = oc::close(None, fd);
+    unsafe {
+        if listener >= 0 {
+            libc::close(listener);
+        }
+        let _ = libc::unlink(path.as_ptr().cast());
+    }
+}
+
 pub fn cmd_nonblock(args: &Args, out: &Out) {
     let seed = args.u64("seed", 1);
     let (a, b) = case_range(args, 8);
     for case in a..b {
         let mut rng = Rng::for_case(seed ^ 0xC18, case);
-        let op = NB_OPS[(case % 11) as usize]; // connect handled by the scripted/real-listener variant below when chosen
-        let coroutine = (case / 11) % 2 == 1;
-        let caller_nonblocking = (case / 22) % 3 != 2; // two thirds of the cases are the interesting ones
+        let op = NB_OPS[(case % 12) as usize];
+        if op == "connect" {
+            connect_case(case, out);
+            continue;
+        }
+        let coroutine = (case / 12) % 2 == 1;
+        let caller_nonblocking = (case / 24) % 3 != 2; // two thirds of the cases are the interesting ones
         let unblock_after_ms = if caller_nonblocking { 700 } else { rng.range(30, 80) };
         out.begin(case, jobj! {"op" => op, "context" => if coroutine {"coroutine (task)"} else {"plain thread"}, "caller_set_O_NONBLOCK" => caller_nonblocking,
             "situation" => "nothing to read / send buffer full / no pending connection", "peer_acts_after_ms" => unblock_after_ms});
